@@ -115,7 +115,9 @@ func workerID(h, t uint64) map[string]string {
 func parseWorkerKey(k string) (uint64, uint64) {
 	var m map[string]string
 	if err := json.Unmarshal([]byte(k), &m); err != nil {
-		panic(err)
+		// a corrupted scheduler state can show a worker without a key: report
+		// it as a worker nobody registered instead of giving up on the run
+		return 999999, 999999
 	}
 	h, _ := strconv.ParseUint(m["h"], 10, 64)
 	t, _ := strconv.ParseUint(m["t"], 10, 64)
